@@ -535,6 +535,12 @@ def c_ctor_fresh(ctx, args):
         f = (lambda: CI_.CNOT(0, 1).forward_map) if k == 'CNOT' else ((lambda: CI_.C(seed % 24, 0).forward_map) if k == 'C' else (lambda: getattr(CI_, k)(0).forward_map))
     elif what == 'rotation_gate':
         f = lambda: CI_.clifford_rotation_gate(M.P(g)).generator
+    elif what == 'pauli_str':
+        txt = {0: '', 1: 'i', 2: '-', 3: '-i'}[seed % 4] + ''.join('IXZY'[int(x) + 2 * int(z)] for x, z in zip(g[0][0::2], g[0][1::2]))
+        f = lambda: lib.pauli(txt)
+    elif what == 'paulis_str':
+        txts = [''.join('IXZY'[int(x) + 2 * int(z)] for x, z in zip(r[0][0::2], r[0][1::2])) for r in gen.rplist(rng, n, 3)]
+        f = lambda: lib.paulis(txts)
     elif what == 'pauli':
         f = lambda: lib.paulialg.pauli([int(2 * a + b) if (a, b) != (1, 1) else 2 for a, b in zip(g[0][0::2], g[0][1::2])])
     else:
@@ -554,6 +560,13 @@ def c_ctor_fresh(ctx, args):
             circ = M.build_circuit(n, [[0, [[n - 1], [2, 0]]]] + [[0, gen.rgate(rng, ctx.model, n, kinds=('gen', 'fwd', 'named'))] for _ in range(rng.randint(1, 4))])
             circ.compile()
             circ.forward(r1)
+        elif use == 'library' and hasattr(r1, 'g') and n >= 2 and int(r1.g.shape[-1]) == 2 * n:
+            # a single operator updated in place by a masked rotation (the masked branch writes into the operator's own array)
+            k = rng.randint(1, n - 1)
+            mk = gen.rmask(rng, n, k)[0]
+            sub = [b for q in range(n) if mk[q] for b in (g[0][2 * q], g[0][2 * q + 1])]
+            anti = [1 - sub[0], sub[1]] + [0] * (2 * k - 2) if any(sub[:2]) else [1, 0] + [0] * (2 * k - 2)
+            r1.rotate_by(M.P([anti, 0]), mask=M.mk_mask(mk) if hasattr(M, 'mk_mask') else (np.array(mk, dtype=bool) if be == 'np' else __import__('torch').tensor([bool(b) for b in mk])))
         elif hasattr(r1, 'gs'):
             r1.gs[...] = 1 - r1.gs
             r1.ps[...] = (r1.ps + 1) % 4
@@ -603,7 +616,15 @@ def c_empties(ctx, args):
     return None
 
 
-CHECKS = {'plain_args': c_plain_args, 'empties': c_empties, 'ctor_fresh': c_ctor_fresh, 'copy': c_copy, 'query': c_query, 'inplace': c_inplace, 'torch_copy': c_torch_copy}
+def c_obj_history(ctx, args):
+    """ONE long-lived map or state (numpy or torch): queries interleaved with in-place updates -- rotations, masked updates, sign changes, embed into a block-diagonal map --
+    and with in-place updates of the RESULTS the queries returned; every query equals the same query on a freshly built equal object, and no result changes afterwards"""
+    from vlib import history
+    kind, n, seed, steps, which, be = args
+    return history.reused_object_history(ctx, kind, n, seed, steps, which, be=be)
+
+
+CHECKS = {'obj_history': c_obj_history, 'plain_args': c_plain_args, 'empties': c_empties, 'ctor_fresh': c_ctor_fresh, 'copy': c_copy, 'query': c_query, 'inplace': c_inplace, 'torch_copy': c_torch_copy}
 
 
 def run(ctx):
@@ -623,6 +644,10 @@ def run(ctx):
     for it in range(int(80 * B)):
         api = ['entropy', 'mask', 'get_prob', 'getitem', 'rotate_mask', 'transform_mask', 'gate', 'measure_layer', 'describe'][it % 9]
         do(ctx, 'plain_args', [api, rng.randint(2, 5), rng.randrange(10 ** 6)], nontrivial=('pa', api, it))
+    for it in range(int(60 * B)):
+        be = ['np', 'torch'][it % 2]
+        do(ctx, 'obj_history', ['map', rng.randint(1, 4), rng.randrange(10 ** 6), rng.randint(4, 12), ['inverse', 'compose', 'to_state', 'copy'], be], nontrivial=('oh', be, it))
+        do(ctx, 'obj_history', ['state', rng.randint(1, 4), rng.randrange(10 ** 6), rng.randint(4, 12), ['to_map', 'copy', 'expect', 'entropy'] + (['density_matrix'] if be == 'np' else []), be], nontrivial=('ohs', be, it))
     # the rank kernels work in place on whatever they are handed: entropy on larger, mixed and pure states, every block region
     for _ in range(max(30, int(30 * B))):
         do(ctx, 'query', ['StabilizerState', 'entropy', rng.randint(3, 6), rng.randrange(10 ** 6)], nontrivial=('qe', ctx.res.evaluations))
